@@ -532,6 +532,7 @@ R6_TAILS = [
     (r'\.\s*iter\s*\(\s*\)\s*\.\s*rev\s*\(\s*\)\s*\.\s*find_map\s*\(', 'vf_rfind_map'),
     (r'\.\s*iter\s*\(\s*\)\s*\.\s*take_while\s*\(', 'vf_prefix_len', r'\)\s*\.\s*count\s*\(\s*\)'),
     (r'\.\s*windows\s*\(\s*2\s*\)\s*\.\s*any\s*\(', 'vf_adjacent_any'),
+    (r'\.\s*iter\s*\(\s*\)\s*\.\s*any\s*\(', 'vf_any'),
 ]
 
 
@@ -561,6 +562,48 @@ def r6_tails(text, notes):
             notes.add('R6', '`%s%s..` lowered to %s(%s, <closure verbatim>)' % (recv, ' '.join(text[m.start():m.start()].split()), helper, recv))
             changed = True
             break
+    # `E.into_iter().map(C1).take_while(C2).collect()`
+    mask = mask_text(text)
+    m = re.search(r'\.\s*into_iter\s*\(\s*\)\s*\.\s*map\s*\(', mask)
+    if m:
+        par1 = m.end() - 1
+        close1 = match_close(mask, par1)
+        m2 = re.match(r'\)\s*\.\s*take_while\s*\(', mask[close1:])
+        if m2:
+            par2 = close1 + m2.end() - 1
+            close2 = match_close(mask, par2)
+            m3 = re.match(r'\)\s*\.\s*collect\s*\(\s*\)', mask[close2:])
+            if m3:
+                rs = _receiver_start(mask, m.start())
+                recv = text[rs:m.start()].strip()
+                c1 = text[par1 + 1:close1].strip()
+                c2 = text[par2 + 1:close2].strip()
+                text = text[:rs] + 'vf_map_take_while(%s, %s, %s)' % (recv, c1, c2) + text[close2 + m3.end():]
+                notes.add('R6', '`%s.into_iter().map(..).take_while(..).collect()` lowered to vf_map_take_while' % ' '.join(recv.split()))
+    # `E.map(C).collect::<Result<Vec<_>, String>>()`
+    mask = mask_text(text)
+    m = re.search(r'\.\s*map\s*\(', mask)
+    while m:
+        par = m.end() - 1
+        close = match_close(mask, par)
+        ma = re.match(r'\)\s*\.\s*collect\s*::\s*<\s*Result\s*<\s*Vec\s*<\s*_\s*>\s*,\s*String\s*>\s*>\s*\(\s*\)', mask[close:])
+        if ma:
+            rs = _receiver_start(mask, m.start())
+            recv = text[rs:m.start()].strip()
+            arg = text[par + 1:close].strip()
+            text = text[:rs] + 'vf_try_map(%s, %s)' % (recv, arg) + text[close + ma.end():]
+            notes.add('R6', '`%s.map(..).collect::<Result<Vec<_>, String>>()` lowered to vf_try_map(%s, <closure verbatim>)' % (recv, recv))
+            break
+        m = re.search(r'\.\s*map\s*\(', mask[close:])
+        if m:
+            # re-anchor the match object offsets
+            off = close
+            class _M:  # tiny shim
+                pass
+            mm = _M()
+            mm.start = lambda o=off, x=m: o + x.start()
+            mm.end = lambda o=off, x=m: o + x.end()
+            m = mm
     # `let X: HashMap<..> = E.into_iter().collect();`
     mask = mask_text(text)
     m = re.search(r'let\s+(mut\s+)?[A-Za-z_][A-Za-z0-9_]*\s*:\s*HashMap\s*<[^=;]*>\s*=', mask)
